@@ -16,6 +16,7 @@ typedef __int128 i128;
 
 void show_hex(const void *self, const mpz_class *v, verif_os *o, brevity brv);
 void show_oct(const void *self, const mpz_class *v, verif_os *o, brevity brv);
+void show_bin(const void *self, const mpz_class *v, verif_os *o, brevity brv);
 void show_dec(const void *self, const mpz_class *v, verif_os *o, brevity brv);
 
 /* the parse unit calls the unary minus of int.cc, which the intio unit carries under another name */
@@ -36,6 +37,7 @@ static void roundtrip(int which)
   verif_raised = 0;
   if (which == 16) show_hex(0, &v, &os, brevity__full);
   else if (which == 8) show_oct(0, &v, &os, brevity__full);
+  else if (which == 2) show_bin(0, &v, &os, brevity__full);
   else show_dec(0, &v, &os, brevity__full);
   __CPROVER_assert(verif_raised == 0, "rendering an integer raises no error");
   __CPROVER_assert(os.flags == OSF_DEC && os.fill == ' ', "stream formatting state restored after rendering");
@@ -45,7 +47,7 @@ static void roundtrip(int which)
   constant c = parse_int(s);
   __CPROVER_assert(verif_raised == 0, "the rendering reads back as a literal");
   __CPROVER_assert(verif_raised != 0 || VALC(c.m_value) == VALC(v), "reading the rendering back gives an equal value");
-  const zw_cdom *want = which == 16 ? &g_dom_hex : which == 8 ? &g_dom_oct : &g_dom_dec;
+  const zw_cdom *want = which == 16 ? &g_dom_hex : which == 8 ? &g_dom_oct : which == 2 ? &g_dom_bin : &g_dom_dec;
 #ifndef RADIX_ZERO_DOMAIN_KNOWN
   __CPROVER_assert(verif_raised != 0 || c.m_dom == want, "reading the rendering back gives the same domain");
 #else
@@ -57,19 +59,21 @@ static void roundtrip(int which)
 void hb_radix_hex(void) { roundtrip(16); }
 void hb_radix_oct(void) { roundtrip(8); }
 void hb_radix_dec(void) { roundtrip(10); }
+void hb_radix_bin(void) { roundtrip(2); }
 
-/* the known finding on its own: exactly the listed inputs (value 0, hex and oct domain) */
+/* the known finding on its own: exactly the listed inputs (value 0 in the hex, oct and bin domains) */
 void hb_known_zero_domain(void)
 {
-  for (int which = 8; which <= 16; which += 8)
+  for (int k = 0; k < 3; ++k)
     {
+      int which = k == 0 ? 16 : k == 1 ? 8 : 2;
       mpz_class v; v.m_u = 0; v.m_sign = signedness__unsign;
       verif_os os; os_init(&os);
       verif_raised = 0;
-      if (which == 16) show_hex(0, &v, &os, brevity__full); else show_oct(0, &v, &os, brevity__full);
+      if (which == 16) show_hex(0, &v, &os, brevity__full); else if (which == 8) show_oct(0, &v, &os, brevity__full); else show_bin(0, &v, &os, brevity__full);
       os.buf[os.len] = 0;
       strlit s; s.buf = os.buf; s.len = os.len;
       constant c = parse_int(s);
-      __CPROVER_assert(c.m_dom == (which == 16 ? &g_dom_hex : &g_dom_oct), "zero of the hex/oct domain reads back in its own domain");
+      __CPROVER_assert(c.m_dom == (which == 16 ? &g_dom_hex : which == 8 ? &g_dom_oct : &g_dom_bin), "zero of the hex/oct/bin domain reads back in its own domain");
     }
 }
